@@ -15,7 +15,8 @@ RULE = ("non-overlapping event sequences with distinct timestamps on a ms grid, 
         "zero-length events; equal/differing data between neighbours; chains of 3+; gaps at pulsetime-1ms, =pulsetime, "
         "+1ms, 0; pulsetimes 0..10 s; non-trivial = at least one gap with 0 < gap <= pulsetime; signature = set of per-"
         "neighbour-pair classes (same/diff data, gap class, e1 longer/equal/shorter/zero) + length class")
-ASSUMPTIONS = ["domain: pairwise non-overlapping events (closed ends may touch), distinct timestamps, durations >= 0, pulsetime >= 0",
+ASSUMPTIONS = ["interval edges are millisecond aligned: an Event cannot START between milliseconds, so no implementation could return exact pieces for sub-millisecond ends (C09 states this granularity explicitly)",
+               "domain: pairwise non-overlapping events (closed ends may touch), distinct timestamps, durations >= 0, pulsetime >= 0",
                "zero-length events count as neighbours when gaps are measured"]
 
 
